@@ -265,9 +265,10 @@ def drop_task(pl, t):
                 to = 0
             else:
                 continue
-        if task > t:
+        # caller threads are renumbered; threads created by the code under test are numbered from 16
+        if t < task < 16:
             task -= 1
-        if to > t:
+        if t < to < 16:
             to -= 1
         sw.append([task, op, off, to, cause])
     q["sw"] = sw
@@ -607,8 +608,8 @@ def describe_sig(sig):
     return s
 
 
-SW_CAUSE = {0: "strategy", 1: "forced:blocked", 2: "forced:finished", 3: "fault:preempt", 4: "fault:stall", 5: "fair/yield",
-            6: "strategy:after-lock-acquired"}
+SW_CAUSE = {0: "strategy", 1: "forced:blocked", 2: "forced:finished", 3: "fault:preempt", 4: "fault:stall", 5: "fair:round-robin",
+            6: "strategy:after-lock-acquired", 7: "hand-off:yield/sleep"}
 
 
 def process_candidate(ctx, runner, syms, cand_path, variant, found_rec, known, outdir, max_seconds=45.0):
